@@ -56,6 +56,24 @@ type AmmoCase struct {
 	// fresh line after the file as rendered, otherwise none | space | tab | newline | crlf | blank_lines (JSON values are
 	// separated by any or no whitespace, so the garbage is garbage wherever it starts).
 	Glue string `json:"garbage_glue,omitempty"`
+	// Long (meta mode): the "garbage" is ONE very long line (it is in Data; Garbage holds a short description of it)
+	Long *LongLine `json:"long_line,omitempty"`
+	// MaxAmmoSize is grpc/json's `maxammosize` ("Maximum number of byte in an ammo. Default is bufio.MaxScanTokenSize"); 0 = not set
+	MaxAmmoSize int `json:"max_ammo_size,omitempty"`
+}
+
+// LongLine is a line of Len bytes (without its newline) that stands after the valid entries of a meta case.
+type LongLine struct {
+	// entry: a well-formed entry of the format padded to Len (grpc/json: payload name, http/json: body, uri: the path);
+	// junk: Len times Fill; header (uri): "[" + padding, a header line that never closes
+	Shape string `json:"shape"`
+	Fill  string `json:"fill"`
+	Len   int    `json:"len"`
+	// LineLimit is the longest line the format's reader takes: `maxammosize` / 65536 (bufio.MaxScanTokenSize) for the two
+	// bufio.Scanner formats grpc/json and uri, the documented default 65536 for http/json, 0 = no limit (uripost, raw).
+	LineLimit  int  `json:"line_limit"`
+	Over       bool `json:"over"` // Len > LineLimit
+	Terminated bool `json:"terminated"`
 }
 
 // ---------------------------------------------------------------------------
@@ -219,6 +237,10 @@ func genAmmoCase(format string, r *vf.Run) func(t *rapid.T) AmmoCase {
 // genMeta builds valid-prefix + garbage (+ valid suffix for grpc/json with continueonerror).
 func genMeta(t *rapid.T, c *AmmoCase) {
 	c.Mode, c.Origin = "meta", "meta"
+	if rapid.IntRange(0, 4).Draw(t, "long_line") == 0 {
+		genLong(t, c)
+		return
+	}
 	c.MustReject = rapid.IntRange(0, 2).Draw(t, "must_reject") > 0
 	structural := false
 	if c.MustReject && (c.Format == "jsonline" || c.Format == fmtGRPC) {
@@ -344,13 +366,16 @@ func ammoBody(c AmmoCase, o *vf.Obs) error {
 	if c.ContinueOnError {
 		conf["continueonerror"] = true
 	}
+	if c.MaxAmmoSize != 0 {
+		conf["maxammosize"] = c.MaxAmmoSize
+	}
 	var p core.Provider
 	var buildErr error
 	if err := guard("provider construction", func() error { p, buildErr = provrun.Build(conf); return nil }); err != nil {
 		return err
 	}
 	class("origin_" + c.Origin)
-	if c.Mode == "meta" && c.MustReject {
+	if c.Mode == "meta" && c.MustReject && c.Long == nil {
 		// labelled here: a file in array form is judged (and rejected) as a whole at construction
 		layout := "lines"
 		if c.Valid != nil && c.Valid.Layout.JSON != "" {
@@ -398,6 +423,13 @@ func ammoBody(c AmmoCase, o *vf.Obs) error {
 	perPass := len(c.Data) + 1
 	if bound == 0 || (c.Passes > 0 && c.Passes*perPass < bound) {
 		bound = c.Passes * perPass
+	}
+	if c.Long != nil && c.Mode == "meta" && c.Passes == 0 && c.Limit == 0 {
+		n := len(c.GValid)
+		if c.Valid != nil {
+			n = len(c.Valid.Expected())
+		}
+		bound = longBound(c, n)
 	}
 	const cap = 20000
 	capped := false
@@ -489,6 +521,13 @@ func ammoBody(c AmmoCase, o *vf.Obs) error {
 	class("meta")
 	if c.MustReject {
 		class("meta_must_reject")
+	}
+	if c.Long != nil {
+		E := len(wantG)
+		if c.Valid != nil {
+			E = len(wantHTTP)
+		}
+		return judgeLong(c, res, gotValidG, invalidG, E, class)
 	}
 	if c.Format == fmtGRPC {
 		want := append([]GEntry{}, wantG...)
